@@ -51,3 +51,28 @@ package factory
 //@     assert [path]  arg0 == ite(f == "", "./config/upfcfg.yaml", f)
 //@   at call Unmarshal:
 //@     assert [into]  arg0 == content && arg1 == iface(cfg)
+
+// The running configuration is the validated one (C20: 'accepted values appear unchanged'): no function of the module
+// stores to a field of the configuration structs (YAML decoding writes them through reflection, before validation).
+//@ writers factory.Config.Version serves C20 =
+//@ writers factory.Config.Pfcp serves C20 =
+//@ writers factory.Config.Gtpu serves C20 =
+//@ writers factory.Config.DnnList serves C20 =
+//@ writers factory.Config.Logger serves C20 =
+//@ writers factory.Pfcp.Addr serves C20 =
+//@ writers factory.Pfcp.NodeID serves C20 =
+//@ writers factory.Pfcp.RetransTimeout serves C20 =
+//@ writers factory.Pfcp.MaxRetrans serves C20 =
+//@ writers factory.Gtpu.Forwarder serves C20 =
+//@ writers factory.Gtpu.IfList serves C20 =
+//@ writers factory.IfInfo.Addr serves C20 =
+//@ writers factory.IfInfo.Type serves C20 =
+//@ writers factory.IfInfo.Name serves C20 =
+//@ writers factory.IfInfo.IfName serves C20 =
+//@ writers factory.IfInfo.MTU serves C20 =
+//@ writers factory.DnnList.Dnn serves C20 =
+//@ writers factory.DnnList.Cidr serves C20 =
+//@ writers factory.DnnList.NatIfName serves C20 =
+//@ writers factory.Logger.Enable serves C20 =
+//@ writers factory.Logger.Level serves C20 =
+//@ writers factory.Logger.ReportCaller serves C20 =
